@@ -1,0 +1,34 @@
+//go:build verif
+
+package poll
+
+// Contracts for the verif engine (/verif). Comment-only: no code is compiled
+// from this file with or without the tag.
+
+//@ func (*PollWorker).Process
+//@ props C18
+//@ nopanic C13
+//@ funcvalue ^mesg\.Done$ records done
+//@ elem conns assume elem != nil && elem.ch != nil && !closed(elem.ch)
+//@ requires w != nil && mesg != nil && mesg.Done != nil && w.connections.conns != nil
+//@ ensures calls("done") == 1
+
+//@ func (*connections).get
+//@ props C18
+//@ nopanic C13
+//@ elem conns assume elem != nil && elem.ch != nil && !closed(elem.ch)
+//@ requires cs != nil && cs.conns != nil
+//@ ensures result1 ==> result0 != nil && result0.ch != nil && !closed(result0.ch)
+//@ ensures !result1 ==> result0 == nil
+
+//@ func (*connections).add
+//@ props C18
+//@ nopanic C13
+//@ elem conns assume elem != nil && elem.ch != nil && !closed(elem.ch) && elem.ch != conn.ch
+//@ requires cs != nil && cs.conns != nil && cs.cnt != nil && conn != nil && conn.ch != nil && !closed(conn.ch)
+
+//@ func (*connections).rmv
+//@ props C18
+//@ nopanic C13
+//@ elem conns assume elem != nil && elem.ch != nil && !closed(elem.ch) && elem.ch != conn.ch
+//@ requires cs != nil && cs.conns != nil && cs.cnt != nil && conn != nil && conn.ch != nil && !closed(conn.ch)
